@@ -18,7 +18,7 @@ LEVEL = "exploration"
 RULE = ("result tables from the four result paths (streamed, ordered buffer, single aggregate row, grouped rows) with "
         "0, 1 and many rows and 1..6 distinct columns over trees whose names come from adversarial classes (all ASCII "
         "punctuation, quotes, comma, semicolon, < > &, tab and newline, leading/trailing spaces, multi-byte UTF-8, "
-        "number/boolean/null look-alikes), one root or 2-4 roots in FROM (rows split between roots, an empty root, a root listed twice, root options), and long rows (> 8 KiB and > 64 KiB via nested multi-byte directories and "
+        "number/boolean/null look-alikes, letters whose code point ends in the byte of a format's special character), one root or 2-4 roots in FROM (rows split between roots, an empty root, a root listed twice, root options), and long rows (> 8 KiB and > 64 KiB via nested multi-byte directories and "
         "concat). Each table is requested in all six formats; `into list` is the reference T. Oracle: JSON parses to a "
         "list of objects that carry T's rows under a consistent key->column assignment; CSV parses (strict) to T; "
         "HTML matches a strict grammar and its unescaped cells are T; tabs/lines split back to T when no value contains "
@@ -34,6 +34,10 @@ ADV_NAMES = ['a"b', "a'b", "a,b", "a;b", "<x>", "a&b", "a&amp;b", "x<y", "p>q", 
              " lead", "trail ", "two  sp", "null", "true", "123", "1e5", "-5", "a\\b", "\\", "{j}", "[k]", "a:b", "é",
              "日本語", "\U0001F600", "naïve.txt", "q?.txt", "st*r", "#h", "$d", "%p", "(r)", "+s", "=t", "@u", "^v",
              "`w", "|x", "~y", "!z", "cr\rx", 'mix"<&>\',\t', "ü" * 40, "plain.txt", "b.log", "ctl\x01x", "\x7f"]
+# characters whose code point ends in the byte of a character that is special in some format (U+0126 ends in 0x26 '&',
+# U+013C in '<', U+012C in ',', U+0122 in '"', U+010A in LF ...): they are ordinary letters and must pass unchanged
+_LOW = [0x22, 0x26, 0x27, 0x2C, 0x3C, 0x3E, 0x5C, 0x09, 0x0A, 0x0D, 0x3B]
+ADV_NAMES += [chr(0x100 + b) + "w%02x" % b for b in _LOW] + ["".join(chr(0x4E00 + b) for b in _LOW), "".join(chr(0x2000 + b) for b in (0x26, 0x27, 0x22))]
 COLS = ["name", "path", "ext", "dir", "size", "mode", "is_dir", "modified", "length(name)", "upper(name)", "abspath",
         "lower(ext)"]
 
